@@ -144,6 +144,39 @@ def interp(a):
             msgs.append('%s interpolation in sub-grid %s (%dx%d) at row %.3f col %.3f field %d returns %r, the %s field is %r%s' % (
                 method, t['name'], t['nrows'], t['ncols'], where[0], where[1], where[2], where[3], 'linear' if deg == 1 else 'bi-quadratic', where[4],
                 ' [outermost ring of cells: stencil leaves the sub-grid]' if where[5] else ''))
+        if method == 'bilinear':
+            # bilinear interpolation is the blend of the FOUR ENCLOSING nodes: on a field that is not linear, any other choice of nodes
+            # (e.g. a neighbouring cell, extrapolated) gives a different value; at a node the node value is returned
+            import math
+            bump = lambda k: (lambda r, c: (0.25 * r * r + 0.5 * r * c - 0.125 * c * c + 8 * k, 0.125 * c * c * r - 0.5 * r, 0.5 * r * r, 0.25 * c * c))
+            p2 = os.path.join(d, 'b.gsb')
+            write_gsb(p2, [_flat(s, bump(k)) for k, s in enumerate(sgs)])
+            g2 = read_ntv2_file(p2)
+            fb = bump(ti)
+            for lat_s, lon_s in pts:
+                if not (h['s_lat'] <= lat_s < h['n_lat'] and h['e_long'] <= lon_s < h['w_long']):
+                    continue
+                if any(o is not t and o['hdr']['lat_inc'] < h['lat_inc'] and o['hdr']['s_lat'] <= lat_s < o['hdr']['n_lat']
+                       and o['hdr']['e_long'] <= lon_s < o['hdr']['w_long'] for o in sgs):
+                    continue
+                rr = (Fraction(lat_s) - h['s_lat']) / h['lat_inc']
+                cc = (Fraction(lon_s) - h['e_long']) / h['long_inc']
+                r0, c0 = math.floor(rr), math.floor(cc)
+                y, x = float(rr - r0), float(cc - c0)
+                try:
+                    got = interpolate_ntv2(g2, float(Fraction(lat_s) / 3600), float(Fraction(lon_s) / -3600), 'bilinear')
+                except Exception as ex:  # noqa
+                    msgs.append('interpolate_ntv2 raised %s: %s at row %.3f col %.3f' % (type(ex).__name__, ex, float(rr), float(cc)))
+                    continue
+                if got[0] is None:
+                    continue
+                for k in range(4):
+                    n00, n01, n10, n11 = fb(r0, c0)[k], fb(r0, c0 + 1)[k], fb(r0 + 1, c0)[k], fb(r0 + 1, c0 + 1)[k]
+                    exp = n00 * (1 - x) * (1 - y) + n01 * x * (1 - y) + n10 * (1 - x) * y + n11 * x * y
+                    if abs(got[k] - exp) > 2e-6 * max(1.0, abs(exp)) + 2e-6:
+                        msgs.append('bilinear interpolation in sub-grid %s (%dx%d) at row %.3f col %.3f field %d returns %r, the blend of the four '
+                                    'enclosing nodes is %r' % (t['name'], t['nrows'], t['ncols'], float(rr), float(cc), k, got[k], exp))
+                        break
     return bool(msgs), '; '.join(msgs[:2]) if msgs else 'interpolation reproduces the polynomial field everywhere tried'
 
 
